@@ -12,7 +12,7 @@ PROP = {
                   "each output compared with the model and with a solo save; watchdog for deadlock.",
     "level_note": "Trusted: Lean kernel + 3 standard axioms; hand model; the yield hooks mark every shared-string step (checked: the observed tag sequence per saver "
                   "must be enter, register*k, dump, exit). Real lock poisoning, OS scheduling inside a segment and data races below the yield granularity are outside the model.",
-    "expect_theorems": ["C16_any_schedule", "C16_decodes", "C16_progress"],
+    "expect_theorems": ["C16_any_schedule", "C16_any_schedule_loaded", "C16_loaded_prefix", "C16_decodes", "C16_progress"],
     "rule": "enumerated schedules (strings over saver numbers) for fixed configurations: same object via shared reference / clones; equal, disjoint, overlapping, "
             "reordered and empty string sets; 2 and 3 savers. non-trivial = every schedule (two or three real saves run under it); distinct = distinct request line",
     "trusted_base": TB_COMMON + ["verification hooks umya_spreadsheet::verif_hooks::yield_point at Cell::write_to registration, shared_strings::write dump, make_buffer entry/exit",
